@@ -30,6 +30,8 @@ val pred : nat -> nat
 
 val add : nat -> nat -> nat
 
+val mul : nat -> nat -> nat
+
 type positive =
 | XI of positive
 | XO of positive
@@ -108,6 +110,8 @@ module N :
 
   val coq_lor : n -> n -> n
 
+  val coq_land : n -> n -> n
+
   val ldiff : n -> n -> n
  end
 
@@ -124,6 +128,8 @@ module Z :
   val add : z -> z -> z
 
   val opp : z -> z
+
+  val pred : z -> z
 
   val sub : z -> z -> z
 
@@ -165,7 +171,13 @@ module Z :
 
   val shiftr : z -> z -> z
 
+  val coq_lor : z -> z -> z
+
   val coq_land : z -> z -> z
+
+  val lnot : z -> z
+
+  val ones : z -> z
  end
 
 val tl : 'a1 list -> 'a1 list
@@ -838,3 +850,59 @@ val sv_step : nat -> sstate -> sop -> sstate * sobs0
 val sv_run : nat -> sop list -> sstate -> sobs0 list * sstate
 
 val sv_final : sstate -> nat list
+
+val bit : z -> z
+
+val bset_sub : z -> z -> bool
+
+val loc_tmp_use : loc -> z
+
+val uses : binstr -> z
+
+val defs : binstr -> z
+
+val is_branch : binstr -> bool
+
+val succs : z -> binstr -> z list
+
+val cell_ok : bprog -> z -> bool
+
+val loc_ok : bprog -> bool -> loc -> bool
+
+val is_memzero : loc -> bool
+
+val mentions_cell : loc -> z -> bool
+
+val memzero_ok : loc -> loc -> loc -> bool
+
+val dst_ok : loc -> bool
+
+val instr_ok : bprog -> bool -> z -> z -> binstr -> bool
+
+val all_instr_ok : bprog -> bool -> z -> z -> binstr list -> bool
+
+type arr = z PositiveMap.t
+
+val aget : arr -> z -> z -> z
+
+val aset : arr -> z -> z -> arr
+
+val fwd_pass : z -> binstr list -> z -> arr -> arr -> arr
+
+val arr_eqb : z -> arr -> arr -> nat -> z -> bool
+
+val fwd_fix : nat -> z -> binstr list -> arr -> arr option
+
+val uses_defined : z -> binstr list -> z -> arr -> bool
+
+val bwd_pass : binstr list -> z -> arr -> arr -> arr
+
+val bwd_fix : nat -> binstr list -> arr -> arr option
+
+val reg_mask : z -> z
+
+val live_ok : z -> binstr list -> z list -> z -> arr -> bool
+
+val bc_wf : z -> bool -> bprog -> bool
+
+val bc_wf_why : z -> bool -> bprog -> z
